@@ -590,14 +590,674 @@ Proof.
     specialize (IH (set_last (pool_add s (bop_mentry q o)) q)). cbn zeta in IH.
     destruct IH as (H1 & H2 & H3 & H4 & H5 & H6 & H7 & H8 & H9 & H10 & H11).
     rewrite H1, H2, H3, H4, H5, H6, H7, H8, H9.
-    repeat split; try reflexivity.
+    do 9 (split; [reflexivity|]). split.
     + intros _. destruct r as [|o' r'].
       * reflexivity.
       * apply H10. discriminate.
-    + intros Himm. apply H11. unfold set_last, pool_add; proj. unfold mt_add. rewrite Himm.
-      reflexivity.
-    + intros Himm. destruct H11 as [_ H11].
-      * unfold set_last, pool_add; proj. unfold mt_add. rewrite Himm. reflexivity.
-      * rewrite H11. unfold set_last, pool_add; proj. unfold mt_add. rewrite Himm.
-        cbn [mt_entries map]. reflexivity.
+    + intros Himm.
+      assert (Hm : mt_imm (active (set_last (pool_add s (bop_mentry q o)) q)) = false).
+      { unfold set_last, pool_add; proj. unfold mt_add. rewrite Himm. reflexivity. }
+      destruct (H11 Hm) as [Ha Hb]. split; [exact Ha|].
+      rewrite Hb. unfold set_last, pool_add; proj. unfold mt_add. rewrite Himm.
+      cbn [mt_entries map]. reflexivity.
+Qed.
+
+Lemma concat_log_append : forall files es, concat (log_append files es) = concat files ++ es.
+Proof.
+  intros files es. unfold log_append. destruct (rev files) as [|f r] eqn:E.
+  - apply (f_equal (@rev _)) in E. rewrite rev_involutive in E. subst files.
+    cbn [rev concat app]. apply app_nil_r.
+  - apply (f_equal (@rev _)) in E. rewrite rev_involutive in E. subst files.
+    cbn [rev]. rewrite !concat_app. cbn [concat]. rewrite !app_nil_r, app_assoc. reflexivity.
+Qed.
+
+Definition write_state (s : st) (ops : list bop) : st :=
+  let q := wal_next s in
+  add_all q ops (upd_wal s (q + 1) (log_append (wal_files s) (map (bop_entry q) ops))).
+
+Lemma apply_batch_nil : forall s, apply_batch s [] = (s, WrOk (wal_next s)).
+Proof. reflexivity. Qed.
+
+Lemma apply_batch_overflow : forall s ops,
+  (MaxSeq <=? wal_next s) = true -> ops <> [] -> apply_batch s ops = (s, WrOverflow).
+Proof.
+  intros s [|o r] H Hne; [congruence|]. unfold apply_batch. rewrite H. reflexivity.
+Qed.
+
+Lemma apply_batch_ok : forall s ops,
+  (MaxSeq <=? wal_next s) = false -> ops <> [] ->
+  apply_batch s ops = (maybe_schedule (write_state s ops), WrOk (wal_next s)).
+Proof.
+  intros s [|o r] H Hne; [congruence|]. unfold apply_batch. rewrite H. reflexivity.
+Qed.
+
+Lemma put_as_batch : forall s k v, put s k v = apply_batch s [(k, Some v)].
+Proof.
+  intros s k v. unfold put, apply_batch. destruct (MaxSeq <=? wal_next s); reflexivity.
+Qed.
+
+Lemma del_as_batch : forall s k, del s k = apply_batch s [(k, None)].
+Proof.
+  intros s k. unfold del, apply_batch. destruct (MaxSeq <=? wal_next s); reflexivity.
+Qed.
+
+Lemma tx_commit_as_batch : forall s ops, tx_commit s ops = apply_batch s (buffer_ops ops).
+Proof. intros s ops. unfold tx_commit. destruct (buffer_ops ops); reflexivity. Qed.
+
+(* the write proper: log append + memtable insertions, before a flush is scheduled *)
+Lemma Inv_write : forall s h ops w,
+  Inv s h -> ops <> [] -> effects w = ops ->
+  Inv (write_state s ops) (h ++ [(wal_next s, w)]).
+Proof.
+  intros s h ops w I Hne Hw.
+  pose proof (add_all_spec (wal_next s) ops
+    (upd_wal s (wal_next s + 1)
+       (log_append (wal_files s) (map (bop_entry (wal_next s)) ops)))) as A.
+  cbn zeta in A. fold (write_state s ops) in A.
+  set (s2 := write_state s ops) in *. clearbody s2. unfold upd_wal in A.
+  revert A. proj. intros (A1 & A2 & A3 & A4 & A5 & A6 & A7 & A8 & A9 & A10 & A11).
+  specialize (A10 Hne). specialize (A11 (inv_active_mut s h I)). destruct A11 as [A11 A12].
+  assert (Hst : stamp (wal_next s, w) = map (bop_mentry (wal_next s)) ops).
+  { unfold stamp. cbn [fst snd]. rewrite Hw. reflexivity. }
+  assert (Hwst : wstamp (wal_next s, w) = map (bop_entry (wal_next s)) ops).
+  { unfold wstamp. cbn [fst snd]. rewrite Hw. reflexivity. }
+  constructor.
+  - destruct (inv_segs s h I) as (segsI & segA & HF & HA & HC).
+    exists segsI, (segA ++ stamp (wal_next s, w)). rewrite A4. split; [exact HF|]. split.
+    + rewrite A12, HA, Hst. unfold build. rewrite build_from_app. reflexivity.
+    + rewrite app_assoc, HC, entries_app, entries_single. reflexivity.
+  - rewrite map_app. cbn [map fst]. apply SS_app. split; [exact (inv_sorted s h I)|]. split.
+    + repeat constructor.
+    + intros a b Ha [<-|[]]. pose proof (inv_bound s h I) as B. rewrite Forall_forall in B.
+      exact (B a Ha).
+  - rewrite A2, map_app. apply Forall_app. split.
+    + eapply Forall_impl; [|exact (inv_bound s h I)]. cbn beta. intros a Ha. lia.
+    + cbn [map fst]. repeat constructor. lia.
+  - apply Forall_app. split; [exact (inv_nonempty s h I)|]. repeat constructor.
+    cbn [snd]. rewrite Hw. exact Hne.
+  - rewrite A3, concat_log_append, (inv_wal s h I), wentries_app, wentries_single, Hwst.
+    reflexivity.
+  - rewrite A10, map_app. cbn [map fst]. rewrite last_last. reflexivity.
+  - rewrite A2, A10. reflexivity.
+  - exact A11.
+  - rewrite A4, A5. exact (inv_pending s h I).
+  - rewrite A9, A6. intros Hl. eapply Forall_impl; [|exact (inv_ssts s h I Hl)].
+    intros l Hlf. eapply Forall_impl; [|exact Hlf]. intros x Hx. unfold key_written in *.
+    rewrite entries_app, map_app. apply in_or_app. left. exact Hx.
+Qed.
+
+(* scheduleFlush: the active table becomes the newest immutable one *)
+Lemma Inv_maybe_schedule : forall s h, Inv s h -> Inv (maybe_schedule s) h.
+Proof.
+  intros s h I. unfold maybe_schedule. destruct (flush_pending s); [|exact I].
+  constructor; unfold schedule_flush; proj;
+    try (first [exact (inv_sorted s h I)|exact (inv_bound s h I)|exact (inv_nonempty s h I)
+               |exact (inv_wal s h I)|exact (inv_last s h I)|exact (inv_next s h I)
+               |exact (inv_ssts s h I)]).
+  - destruct (inv_segs s h I) as (segsI & segA & HF & HA & HC).
+    exists (segsI ++ [segA]), []. split; [|split].
+    + apply Forall2_app; [exact HF|]. repeat constructor. exact HA.
+    + reflexivity.
+    + rewrite concat_app. cbn [concat]. rewrite !app_nil_r. exact HC.
+  - reflexivity.
+  - apply incl_app.
+    + apply incl_appl. exact (inv_pending s h I).
+    + apply incl_appr. apply incl_refl.
+Qed.
+
+Lemma Inv_apply_batch : forall s h ops w s' q,
+  Inv s h -> ops <> [] -> effects w = ops -> apply_batch s ops = (s', WrOk q) ->
+  q = wal_next s /\ Inv s' (h ++ [(q, w)]).
+Proof.
+  intros s h ops w s' q I Hne Hw E.
+  destruct (MaxSeq <=? wal_next s) eqn:M.
+  - rewrite apply_batch_overflow in E by assumption. discriminate.
+  - rewrite apply_batch_ok in E by assumption. injection E as <- <-.
+    split; [reflexivity|]. apply Inv_maybe_schedule. apply Inv_write; assumption.
+Qed.
+
+Lemma apply_batch_no_effect : forall s ops s', apply_batch s ops = (s', WrOverflow) -> s' = s.
+Proof.
+  intros s ops s' E. destruct ops as [|o r]; [discriminate|].
+  destruct (MaxSeq <=? wal_next s) eqn:M.
+  - rewrite apply_batch_overflow in E by (assumption || discriminate). congruence.
+  - rewrite apply_batch_ok in E by (assumption || discriminate). discriminate.
+Qed.
+
+Lemma Inv_put : forall s h k v s' q,
+  Inv s h -> put s k v = (s', WrOk q) -> q = wal_next s /\ Inv s' (h ++ [(q, WPut k v)]).
+Proof.
+  intros s h k v s' q I E. rewrite put_as_batch in E.
+  eapply Inv_apply_batch; [exact I| |reflexivity|exact E]. discriminate.
+Qed.
+
+Lemma Inv_del : forall s h k s' q,
+  Inv s h -> del s k = (s', WrOk q) -> q = wal_next s /\ Inv s' (h ++ [(q, WDel k)]).
+Proof.
+  intros s h k s' q I E. rewrite del_as_batch in E.
+  eapply Inv_apply_batch; [exact I| |reflexivity|exact E]. discriminate.
+Qed.
+
+(* ---------- flush ---------- *)
+
+Definition nonnil {A : Type} (l : list A) : bool := match l with [] => false | _ => true end.
+
+(* what flushMemTable writes for table m (nothing = no file) *)
+Definition flushed_entries (m : memtable) : list sentry :=
+  if mt_size m =? 0 then [] else collect (mt_iter_entries m).
+
+Definition opt_table (l : list sentry) : list (list sentry) := if nonnil l then [l] else [].
+
+Lemma flush_table_spec : forall s m,
+  let s' := flush_table s m in
+  cfg s' = cfg s /\ wal_next s' = wal_next s /\ wal_files s' = wal_files s /\
+  last_seq s' = last_seq s /\ active s' = active s /\ imms s' = imms s /\
+  pending s' = pending s /\ flush_pending s' = flush_pending s /\ lost_log s' = lost_log s /\
+  map s_entries (ssts s') = map s_entries (ssts s) ++ opt_table (flushed_entries m).
+Proof.
+  intros s m. cbn zeta. unfold flush_table, flushed_entries, opt_table.
+  destruct (mt_size m =? 0).
+  - cbn [nonnil]. rewrite app_nil_r. repeat split; reflexivity.
+  - destruct (collect (mt_iter_entries m)) as [|x l].
+    + cbn [nonnil]. rewrite app_nil_r. repeat split; reflexivity.
+    + proj. cbn [nonnil]. rewrite map_app. cbn [map s_entries]. repeat split; reflexivity.
+Qed.
+
+Lemma fold_flush_table_spec : forall ps s,
+  let s' := fold_left flush_table ps s in
+  cfg s' = cfg s /\ wal_next s' = wal_next s /\ wal_files s' = wal_files s /\
+  last_seq s' = last_seq s /\ active s' = active s /\ imms s' = imms s /\
+  pending s' = pending s /\ flush_pending s' = flush_pending s /\ lost_log s' = lost_log s /\
+  map s_entries (ssts s') =
+    map s_entries (ssts s) ++ flat_map (fun m => opt_table (flushed_entries m)) ps.
+Proof.
+  induction ps as [|m r IH]; intros s; cbn zeta.
+  - cbn [fold_left flat_map]. rewrite app_nil_r. repeat split; reflexivity.
+  - cbn [fold_left flat_map]. specialize (IH (flush_table s m)). cbn zeta in IH.
+    destruct IH as (H1 & H2 & H3 & H4 & H5 & H6 & H7 & H8 & H9 & H10).
+    destruct (flush_table_spec s m) as (G1 & G2 & G3 & G4 & G5 & G6 & G7 & G8 & G9 & G10).
+    rewrite H1, H2, H3, H4, H5, H6, H7, H8, H9, H10, G1, G2, G3, G4, G5, G6, G7, G8, G9, G10.
+    rewrite app_assoc. repeat split; reflexivity.
+Qed.
+
+(* the tables one FlushMemTables call writes *)
+Definition flush_tabs (s : st) : list memtable :=
+  match pending s with
+  | [] => if 0 <? mt_size (active s) then [active s] else []
+  | ps => ps
+  end.
+
+Lemma flush_spec : forall s,
+  let s' := flush s in
+  cfg s' = cfg s /\ wal_next s' = wal_next s /\ concat (wal_files s') = concat (wal_files s) /\
+  last_seq s' = last_seq s /\ active s' = active s /\ imms s' = imms s /\
+  lost_log s' = lost_log s /\ incl (pending s') (pending s) /\
+  map s_entries (ssts s') =
+    map s_entries (ssts s) ++ flat_map (fun m => opt_table (flushed_entries m)) (flush_tabs s).
+Proof.
+  intros s. cbn zeta. unfold flush, flush_tabs. destruct (pending s) as [|p ps] eqn:P.
+  - destruct (0 <? mt_size (active s)).
+    + destruct (flush_table_spec (rotate s) (active s))
+        as (G1 & G2 & G3 & G4 & G5 & G6 & G7 & G8 & G9 & G10).
+      rewrite G1, G2, G3, G4, G5, G6, G7, G9, G10. unfold rotate, upd_wal; proj.
+      rewrite concat_snoc_nil, P. cbn [flat_map]. rewrite app_nil_r.
+      repeat split; try reflexivity. apply incl_refl.
+    + cbn [flat_map]. rewrite app_nil_r, P. repeat split; try reflexivity. apply incl_refl.
+  - destruct (fold_flush_table_spec (p :: ps) (rotate (clear_pending s)))
+      as (G1 & G2 & G3 & G4 & G5 & G6 & G7 & G8 & G9 & G10).
+    rewrite G1, G2, G3, G4, G5, G6, G7, G9, G10. unfold rotate, upd_wal, clear_pending; proj.
+    rewrite concat_snoc_nil. repeat split; try reflexivity. intros x [].
+Qed.
+
+Lemma flush_tabs_incl : forall s, incl (flush_tabs s) (active s :: pending s).
+Proof.
+  intros s. unfold flush_tabs. destruct (pending s) as [|p ps].
+  - destruct (0 <? mt_size (active s)); intros x []; [left; assumption|contradiction].
+  - apply incl_tl. apply incl_refl.
+Qed.
+
+Lemma collect_aux_in : forall l acc x,
+  In x (collect_aux acc l) -> In x acc \/ exists e, In e l /\ x = to_sentry e.
+Proof.
+  induction l as [|e r IH]; intros acc x H; cbn [collect_aux] in H.
+  - left. apply in_rev. exact H.
+  - destruct acc as [|lst acc'].
+    + apply IH in H. destruct H as [[<-|[]]|(e' & He' & ->)].
+      * right. exists e. split; [left; reflexivity|reflexivity].
+      * right. exists e'. split; [right; exact He'|reflexivity].
+    + destruct (beq (sk lst) (mk e)).
+      * destruct (sseq lst <? mseq e); apply IH in H.
+        -- destruct H as [[<-|H]|(e' & He' & ->)].
+           ++ right. exists e. split; [left; reflexivity|reflexivity].
+           ++ left. right. exact H.
+           ++ right. exists e'. split; [right; exact He'|reflexivity].
+        -- destruct H as [H|(e' & He' & ->)]; [left; exact H|].
+           right. exists e'. split; [right; exact He'|reflexivity].
+      * apply IH in H. destruct H as [[<-|H]|(e' & He' & ->)].
+        -- right. exists e. split; [left; reflexivity|reflexivity].
+        -- left. exact H.
+        -- right. exists e'. split; [right; exact He'|reflexivity].
+Qed.
+
+Lemma flushed_entries_in : forall m x,
+  In x (flushed_entries m) -> exists e, In e (mt_entries m) /\ x = to_sentry e.
+Proof.
+  intros m x H. unfold flushed_entries in H. destruct (mt_size m =? 0); [contradiction|].
+  unfold collect in H. apply collect_aux_in in H. destruct H as [[]|(e & He & ->)].
+  exists e. split; [|reflexivity]. unfold mt_iter_entries in He. apply filter_In in He. tauto.
+Qed.
+
+Lemma Forall2_in_l : forall (A B : Type) (R : A -> B -> Prop) l l' x,
+  Forall2 R l l' -> In x l -> exists y, In y l' /\ R x y.
+Proof.
+  intros A B R l l' x HF. induction HF as [|a b l l' Hab HF IH]; intros []; subst.
+  - exists b. split; [left; reflexivity|exact Hab].
+  - destruct (IH H) as (y & Hy & Hr). exists y. split; [right; exact Hy|exact Hr].
+Qed.
+
+(* every entry of every memtable layer is an entry of the history *)
+Lemma layer_entries_in_hist : forall s h m e,
+  Inv s h -> In m (active s :: imms s) -> In e (mt_entries m) -> In e (entries h).
+Proof.
+  intros s h m e I Hm He. destruct (inv_segs s h I) as (segsI & segA & HF & HA & HC).
+  rewrite <- HC. apply in_or_app. destruct Hm as [<-|Hm].
+  - right. rewrite HA in He. apply build_in. exact He.
+  - left. destruct (Forall2_in_l _ _ _ _ _ m HF Hm) as (seg & Hseg & Hb).
+    apply in_concat. exists seg. split; [exact Hseg|]. rewrite Hb in He. apply build_in. exact He.
+Qed.
+
+Lemma Inv_flush : forall s h, Inv s h -> Inv (flush s) h.
+Proof.
+  intros s h I.
+  destruct (flush_spec s) as (G1 & G2 & G3 & G4 & G5 & G6 & G7 & G8 & G9).
+  constructor; rewrite ?G1, ?G2, ?G3, ?G4, ?G5, ?G6, ?G7.
+  - exact (inv_segs s h I).
+  - exact (inv_sorted s h I).
+  - exact (inv_bound s h I).
+  - exact (inv_nonempty s h I).
+  - exact (inv_wal s h I).
+  - exact (inv_last s h I).
+  - exact (inv_next s h I).
+  - exact (inv_active_mut s h I).
+  - eapply incl_tran; [exact G8|exact (inv_pending s h I)].
+  - intros Hl. rewrite G9. apply Forall_app. split; [exact (inv_ssts s h I Hl)|].
+    rewrite Forall_forall. intros l Hlin. apply in_flat_map in Hlin.
+    destruct Hlin as (m & Hm & Hlm). unfold opt_table in Hlm.
+    destruct (nonnil (flushed_entries m)); [|contradiction]. destruct Hlm as [<-|[]].
+    rewrite Forall_forall. intros x Hx. apply flushed_entries_in in Hx.
+    destruct Hx as (e & He & ->). unfold key_written. unfold to_sentry; cbn [sk].
+    apply in_map. apply (layer_entries_in_hist s h m e I); [|exact He].
+    apply flush_tabs_incl in Hm. destruct Hm as [<-|Hm]; [left; reflexivity|].
+    right. apply (inv_pending s h I). exact Hm.
+Qed.
+
+(* ---------- reopen ---------- *)
+
+Definition reopen_files (s : st) : list (list wentry) :=
+  match wal_files s with [] => [[]] | f => f end.
+Definition recovered (s : st) : option (list memtable * N) :=
+  recover_tables (cfg s) (concat (reopen_files s)) [mt_empty] 0.
+
+Lemma reopen_none : forall s, recovered s = None ->
+  reopen s = mkSt (cfg s) 1 [[]] 0 mt_empty [] [] false (sst_sort (ssts s)) 1 (clock s) true.
+Proof.
+  intros s H. unfold recovered, reopen_files in H. unfold reopen. cbv zeta. rewrite H. reflexivity.
+Qed.
+
+Lemma reopen_some : forall s tbls maxseq, recovered s = Some (tbls, maxseq) ->
+  reopen s =
+  mkSt (cfg s) (if maxseq =? 0 then 1 else maxseq + 1) (reopen_files s) maxseq
+       (match tbls with a :: _ => a | [] => mt_empty end)
+       (map mt_set_imm (rev (tl tbls))) (map mt_set_imm (rev (tl tbls))) false
+       (sst_sort (ssts s)) 1 (clock s) (lost_log s).
+Proof.
+  intros s tbls maxseq H. unfold recovered, reopen_files in H. unfold reopen. cbv zeta.
+  rewrite H. reflexivity.
+Qed.
+
+Lemma concat_reopen_files : forall s, concat (reopen_files s) = concat (wal_files s).
+Proof. intros s. unfold reopen_files. destruct (wal_files s); reflexivity. Qed.
+
+Definition rec_max (a : N) (e : wentry) : N := if a <? w_seq e then w_seq e else a.
+Definition w_m (e : wentry) (m : mentry) : Prop := wentry_mentry e = Some m.
+Definition head_mutable (tables : list memtable) : Prop :=
+  exists cur older, tables = cur :: older /\ mt_imm cur = false.
+
+(* RecoverFromWAL: the tables (newest first) partition the replayed entries in log order *)
+Lemma recover_tables_spec : forall c es ms,
+  Forall2 w_m es ms ->
+  forall tables maxseq segs tbls m',
+  Forall2 layer_ok tables segs -> head_mutable tables ->
+  recover_tables c es tables maxseq = Some (tbls, m') ->
+  exists segs', Forall2 layer_ok tbls segs' /\ head_mutable tbls /\
+                concat (rev segs') = concat (rev segs) ++ ms /\
+                m' = fold_left rec_max es maxseq.
+Proof.
+  intros c es ms HF. induction HF as [|e m es ms Hem HF IH];
+    intros tables maxseq segs tbls m' HL HM HR.
+  - cbn [recover_tables] in HR. injection HR as <- <-. exists segs.
+    rewrite app_nil_r. repeat split; assumption.
+  - destruct HM as (cur & older & -> & Hcur).
+    inversion HL as [|? seg ? segs0 Hseg HL']; subst.
+    cbn [recover_tables] in HR. unfold w_m in Hem. rewrite Hem in HR.
+    fold (rec_max maxseq e) in HR.
+    destruct (c_memsize c <=? mt_size cur).
+    + destruct (c_maxmem c <=? N.of_nat (length (cur :: older))); [discriminate|].
+      apply IH with (segs := [m] :: seg :: segs0) in HR.
+      * destruct HR as (segs' & H1 & H2 & H3 & H4). exists segs'.
+        repeat split; try assumption.
+        rewrite H3. cbn [rev]. rewrite !concat_app. cbn [concat]. rewrite !app_nil_r.
+        rewrite <- !app_assoc. reflexivity.
+      * constructor; [reflexivity|]. constructor; [exact Hseg|exact HL'].
+      * eexists _, _. split; [reflexivity|]. reflexivity.
+    + apply IH with (segs := (seg ++ [m]) :: segs0) in HR.
+      * destruct HR as (segs' & H1 & H2 & H3 & H4). exists segs'.
+        repeat split; try assumption.
+        rewrite H3. cbn [rev]. rewrite !concat_app. cbn [concat]. rewrite !app_nil_r.
+        rewrite <- !app_assoc. reflexivity.
+      * constructor; [|exact HL']. unfold layer_ok in *. unfold mt_add. rewrite Hcur.
+        cbn [mt_entries]. rewrite Hseg, build_snoc. reflexivity.
+      * eexists _, _. split; [reflexivity|]. unfold mt_add. rewrite Hcur. reflexivity.
+Qed.
+
+Lemma w_m_hist : forall h, Forall2 w_m (wentries h) (entries h).
+Proof.
+  induction h as [|p h IH]; [constructor|].
+  change (wentries (p :: h)) with (wstamp p ++ wentries h).
+  change (entries (p :: h)) with (stamp p ++ entries h).
+  apply Forall2_app; [|exact IH]. unfold wstamp, stamp.
+  induction (effects (snd p)) as [|o l IHl]; cbn [map]; constructor; [|exact IHl].
+  apply wentry_mentry_bop.
+Qed.
+
+Lemma rec_max_last : forall l d,
+  StronglySorted (fun a b => w_seq a <= w_seq b) l -> (forall x, In x l -> d <= w_seq x) ->
+  fold_left rec_max l d = last (map w_seq l) d.
+Proof.
+  induction l as [|a l IH]; intros d Hs Hd; [reflexivity|].
+  cbn [fold_left map]. rewrite last_cons_default.
+  inversion Hs as [|? ? Hs' Hf]; subst.
+  assert (E : rec_max d a = w_seq a).
+  { unfold rec_max. specialize (Hd a (or_introl eq_refl)).
+    destruct (d <? w_seq a) eqn:L; [reflexivity|]. lia. }
+  rewrite E. apply IH; [exact Hs'|]. rewrite Forall_forall in Hf. exact Hf.
+Qed.
+
+Lemma last_wentries : forall h, Forall (fun p => effects (snd p) <> []) h ->
+  last (map w_seq (wentries h)) 0 = last (map fst h) 0.
+Proof.
+  intros h. destruct h as [|p0 h0] using rev_ind; intros Hne; [reflexivity|].
+  apply Forall_app in Hne. destruct Hne as [_ Hp]. inversion Hp as [|? ? Hp' _]; subst.
+  rewrite wentries_app, wentries_single, !map_app. cbn [map]. rewrite last_last.
+  unfold wstamp. destruct (exists_last Hp') as (l' & o & ->).
+  rewrite !map_app. cbn [map]. rewrite app_assoc, last_last. apply wseq_bop_entry.
+Qed.
+
+Lemma sorted_le_last : forall l q, StronglySorted N.lt l -> In q l -> q <= last l 0.
+Proof.
+  intros l q Hs Hq. destruct l as [|a l0]; [contradiction|].
+  destruct (@exists_last _ (a :: l0)) as (l' & x & E); [discriminate|].
+  rewrite E in *. rewrite last_last. apply SS_app in Hs. destruct Hs as (_ & _ & H3).
+  apply in_app_or in Hq. destruct Hq as [Hq|[<-|[]]]; [|lia].
+  specialize (H3 q x Hq (or_introl eq_refl)). lia.
+Qed.
+
+Lemma sst_insert_in : forall x l t, In t (sst_insert x l) <-> t = x \/ In t l.
+Proof.
+  intros x l t. induction l as [|y r IH]; cbn [sst_insert].
+  - cbn [In]. intuition.
+  - destruct (sst_le x y); cbn [In]; [|rewrite IH]; intuition.
+Qed.
+
+Lemma sst_sort_in : forall l t, In t (sst_sort l) <-> In t l.
+Proof.
+  intros l t. induction l as [|x r IH]; [reflexivity|].
+  cbn [sst_sort fold_right]. fold (sst_sort r). rewrite sst_insert_in, IH. cbn [In]. intuition.
+Qed.
+
+Lemma Forall2_rev_ : forall (A B : Type) (R : A -> B -> Prop) l l',
+  Forall2 R l l' -> Forall2 R (rev l) (rev l').
+Proof.
+  intros A B R l l' HF. induction HF; cbn [rev]; [constructor|].
+  apply Forall2_app; [assumption|]. repeat constructor. assumption.
+Qed.
+
+Lemma Inv_reopen_fail : forall s, recovered s = None -> Inv (reopen s) [].
+Proof.
+  intros s H. rewrite (reopen_none s H). constructor; proj; cbn [map last].
+  - exists [], []. repeat split; constructor.
+  - constructor.
+  - constructor.
+  - constructor.
+  - reflexivity.
+  - reflexivity.
+  - reflexivity.
+  - reflexivity.
+  - intros x [].
+  - discriminate.
+Qed.
+
+Lemma Inv_reopen_ok : forall s h tbls maxseq,
+  Inv s h -> recovered s = Some (tbls, maxseq) -> Inv (reopen s) h.
+Proof.
+  intros s h tbls maxseq I H. rewrite (reopen_some s tbls maxseq H).
+  unfold recovered in H. rewrite concat_reopen_files, (inv_wal s h I) in H.
+  destruct (recover_tables_spec (cfg s) _ _ (w_m_hist h) [mt_empty] 0 [[]] tbls maxseq)
+    as (segs' & HL & HM & HC & Hmax).
+  { repeat constructor. }
+  { exists mt_empty, []. split; reflexivity. }
+  { exact H. }
+  cbn [rev concat app] in HC.
+  assert (Hlast : maxseq = last (map fst h) 0).
+  { rewrite Hmax, rec_max_last.
+    - apply last_wentries. exact (inv_nonempty s h I).
+    - apply wentries_sorted. exact (inv_sorted s h I).
+    - intros x _. lia. }
+  clear Hmax H. destruct HM as (cur & older & -> & Hcur).
+  destruct segs' as [|sc so]; [inversion HL|].
+  assert (Hsc : layer_ok cur sc) by (inversion HL; assumption).
+  assert (HLo : Forall2 layer_ok older so) by (inversion HL; assumption).
+  clear HL. cbn [tl].
+  constructor; proj.
+  - exists (rev so), sc. split; [|split].
+    + apply Forall2_rev_ in HLo. revert HLo. generalize (rev older), (rev so).
+      intros l l' HF. induction HF; cbn [map]; constructor; assumption.
+    + exact Hsc.
+    + rewrite <- HC. cbn [rev]. rewrite concat_app. cbn [concat]. rewrite app_nil_r. reflexivity.
+  - exact (inv_sorted s h I).
+  - rewrite Forall_forall. intros q Hq.
+    pose proof (sorted_le_last _ q (inv_sorted s h I) Hq) as Hle. rewrite <- Hlast in Hle.
+    destruct (maxseq =? 0) eqn:Z; lia.
+  - exact (inv_nonempty s h I).
+  - rewrite concat_reopen_files. exact (inv_wal s h I).
+  - exact Hlast.
+  - destruct (maxseq =? 0) eqn:Z; lia.
+  - exact Hcur.
+  - apply incl_refl.
+  - intros Hl. pose proof (inv_ssts s h I Hl) as HS. rewrite Forall_forall in *.
+    intros l Hlin. apply in_map_iff in Hlin. destruct Hlin as (t & <- & Ht).
+    apply (proj1 (sst_sort_in _ _)) in Ht. apply HS. apply in_map. exact Ht.
+Qed.
+
+(* ------------------------------------------------------------------------------------ *)
+(* Part E: runs                                                                            *)
+(* ------------------------------------------------------------------------------------ *)
+
+(* the history since the last loss of the log: what one step does to it *)
+Definition step_hist (s : st) (o : op) (h : hist) : hist :=
+  match o with
+  | OPut k v => match snd (put s k v) with WrOk q => h ++ [(q, WPut k v)] | WrOverflow => h end
+  | ODel k => match snd (del s k) with WrOk q => h ++ [(q, WDel k)] | WrOverflow => h end
+  | OBatch ops =>
+      match ops, snd (apply_batch s ops) with
+      | _ :: _, WrOk q => h ++ [(q, WBatch ops)]
+      | _, _ => h
+      end
+  | OCommit ops =>
+      match buffer_ops ops, snd (tx_commit s ops) with
+      | _ :: _, WrOk q => h ++ [(q, WBatch (buffer_ops ops))]
+      | _, _ => h
+      end
+  | OReopen => match recovered s with None => [] | Some _ => h end
+  | _ => h
+  end.
+
+Fixpoint epoch (s : st) (ops : list op) (h : hist) : hist :=
+  match ops with
+  | [] => h
+  | o :: r => epoch (step s o) r (step_hist s o h)
+  end.
+
+Lemma Inv_batch_step : forall s h ops w,
+  Inv s h -> effects w = ops ->
+  Inv (fst (apply_batch s ops))
+      (match ops, snd (apply_batch s ops) with
+       | _ :: _, WrOk q => h ++ [(q, w)]
+       | _, _ => h
+       end).
+Proof.
+  intros s h ops w I Hw. destruct ops as [|o r]; [exact I|].
+  destruct (apply_batch s (o :: r)) as [s' [q|]] eqn:E; cbn [fst snd].
+  - assert (Hne : o :: r <> []) by discriminate.
+    exact (proj2 (Inv_apply_batch s h (o :: r) w s' q I Hne Hw E)).
+  - apply apply_batch_no_effect in E. subst s'. exact I.
+Qed.
+
+Lemma Inv_step : forall s h o, Inv s h -> Inv (step s o) (step_hist s o h).
+Proof.
+  intros s h o I. destruct o as [k v|k|ops|ops|ops| | |k]; cbn [step step_hist].
+  - rewrite put_as_batch. exact (Inv_batch_step s h [(k, Some v)] (WPut k v) I eq_refl).
+  - rewrite del_as_batch. exact (Inv_batch_step s h [(k, None)] (WDel k) I eq_refl).
+  - exact (Inv_batch_step s h ops (WBatch ops) I eq_refl).
+  - rewrite tx_commit_as_batch.
+    pose proof (Inv_batch_step s h (buffer_ops ops) (WBatch (buffer_ops ops)) I eq_refl) as B.
+    destruct (buffer_ops ops); exact B.
+  - exact I.
+  - apply Inv_flush. exact I.
+  - destruct (recovered s) as [[tbls maxseq]|] eqn:R.
+    + eapply Inv_reopen_ok; eassumption.
+    + apply Inv_reopen_fail. exact R.
+  - exact I.
+Qed.
+
+Lemma Inv_steps : forall ops s h, Inv s h -> Inv (fold_left step ops s) (epoch s ops h).
+Proof.
+  induction ops as [|o r IH]; intros s h I; [exact I|].
+  cbn [fold_left epoch]. apply IH. apply Inv_step. exact I.
+Qed.
+
+Lemma Inv_run : forall c ops, Inv (run c ops) (epoch (init c) ops []).
+Proof. intros. unfold run. apply Inv_steps. apply Inv_init. Qed.
+
+(* ---------- log loss is permanent; without it the epoch is the whole run ---------- *)
+
+Lemma lost_log_maybe_schedule : forall s, lost_log (maybe_schedule s) = lost_log s.
+Proof. intros s. unfold maybe_schedule. destruct (flush_pending s); reflexivity. Qed.
+
+Lemma lost_log_write_state : forall s ops, lost_log (write_state s ops) = lost_log s.
+Proof.
+  intros s ops. unfold write_state.
+  pose proof (add_all_spec (wal_next s) ops
+    (upd_wal s (wal_next s + 1)
+       (log_append (wal_files s) (map (bop_entry (wal_next s)) ops)))) as A.
+  cbn zeta in A. destruct A as (_ & _ & _ & _ & _ & _ & _ & _ & A9 & _).
+  rewrite A9. reflexivity.
+Qed.
+
+Lemma lost_log_apply_batch : forall s ops, lost_log (fst (apply_batch s ops)) = lost_log s.
+Proof.
+  intros s ops. destruct ops as [|o r]; [reflexivity|].
+  destruct (MaxSeq <=? wal_next s) eqn:M.
+  - rewrite apply_batch_overflow by (assumption || discriminate). reflexivity.
+  - rewrite apply_batch_ok by (assumption || discriminate). cbn [fst].
+    rewrite lost_log_maybe_schedule. apply lost_log_write_state.
+Qed.
+
+Lemma lost_log_reopen : forall s,
+  lost_log (reopen s) = match recovered s with None => true | Some _ => lost_log s end.
+Proof.
+  intros s. destruct (recovered s) as [[tbls maxseq]|] eqn:R.
+  - rewrite (reopen_some s tbls maxseq R). reflexivity.
+  - rewrite (reopen_none s R). reflexivity.
+Qed.
+
+Lemma lost_log_step_mono : forall s o, lost_log s = true -> lost_log (step s o) = true.
+Proof.
+  intros s o H. destruct o as [k v|k|ops|ops|ops| | |k]; cbn [step]; try exact H.
+  - rewrite put_as_batch, lost_log_apply_batch. exact H.
+  - rewrite del_as_batch, lost_log_apply_batch. exact H.
+  - rewrite lost_log_apply_batch. exact H.
+  - rewrite tx_commit_as_batch, lost_log_apply_batch. exact H.
+  - destruct (flush_spec s) as (_ & _ & _ & _ & _ & _ & G7 & _). rewrite G7. exact H.
+  - rewrite lost_log_reopen. destruct (recovered s); [exact H|reflexivity].
+Qed.
+
+Lemma lost_log_steps_false : forall ops s,
+  lost_log (fold_left step ops s) = false -> lost_log s = false.
+Proof.
+  induction ops as [|o r IH]; intros s H; [exact H|].
+  cbn [fold_left] in H. apply IH in H. destruct (lost_log s) eqn:L; [|reflexivity].
+  rewrite (lost_log_step_mono s o L) in H. discriminate.
+Qed.
+
+Lemma step_hist_fst : forall s o h, lost_log (step s o) = false ->
+  map fst (step_hist s o h) = map fst h ++ seq1 s o.
+Proof.
+  intros s o h Hl. destruct o as [k v|k|ops|ops|ops| | |k]; cbn [step_hist seq1];
+    try (rewrite app_nil_r; reflexivity).
+  - destruct (snd (put s k v)); [rewrite map_app|rewrite app_nil_r]; reflexivity.
+  - destruct (snd (del s k)); [rewrite map_app|rewrite app_nil_r]; reflexivity.
+  - destruct ops; [rewrite app_nil_r; reflexivity|].
+    destruct (snd (apply_batch s (b :: ops))); [rewrite map_app|rewrite app_nil_r]; reflexivity.
+  - destruct (buffer_ops ops); [rewrite app_nil_r; reflexivity|].
+    destruct (snd (tx_commit s ops)); [rewrite map_app|rewrite app_nil_r]; reflexivity.
+  - cbn [step] in Hl. rewrite lost_log_reopen in Hl.
+    destruct (recovered s); [rewrite app_nil_r; reflexivity|discriminate].
+Qed.
+
+Lemma step_hist_snd : forall s o h, lost_log (step s o) = false ->
+  map snd (step_hist s o h) = map snd h ++ ack1 s o.
+Proof.
+  intros s o h Hl. destruct o as [k v|k|ops|ops|ops| | |k]; cbn [step_hist ack1];
+    try (rewrite app_nil_r; reflexivity).
+  - destruct (snd (put s k v)); [rewrite map_app|rewrite app_nil_r]; reflexivity.
+  - destruct (snd (del s k)); [rewrite map_app|rewrite app_nil_r]; reflexivity.
+  - destruct ops; [rewrite app_nil_r; reflexivity|].
+    destruct (snd (apply_batch s (b :: ops))); [rewrite map_app|rewrite app_nil_r]; reflexivity.
+  - destruct (buffer_ops ops); [rewrite app_nil_r; reflexivity|].
+    destruct (snd (tx_commit s ops)); [rewrite map_app|rewrite app_nil_r]; reflexivity.
+  - cbn [step] in Hl. rewrite lost_log_reopen in Hl.
+    destruct (recovered s); [rewrite app_nil_r; reflexivity|discriminate].
+Qed.
+
+Lemma epoch_fst : forall ops s h, lost_log (fold_left step ops s) = false ->
+  map fst (epoch s ops h) = map fst h ++ ack_seqs s ops.
+Proof.
+  induction ops as [|o r IH]; intros s h Hl; cbn [epoch ack_seqs].
+  - rewrite app_nil_r. reflexivity.
+  - cbn [fold_left] in Hl. rewrite IH by exact Hl.
+    rewrite step_hist_fst by (apply lost_log_steps_false in Hl; exact Hl).
+    rewrite app_assoc. reflexivity.
+Qed.
+
+Lemma epoch_snd : forall ops s h, lost_log (fold_left step ops s) = false ->
+  map snd (epoch s ops h) = map snd h ++ acked s ops.
+Proof.
+  induction ops as [|o r IH]; intros s h Hl; cbn [epoch acked].
+  - rewrite app_nil_r. reflexivity.
+  - cbn [fold_left] in Hl. rewrite IH by exact Hl.
+    rewrite step_hist_snd by (apply lost_log_steps_false in Hl; exact Hl).
+    rewrite app_assoc. reflexivity.
+Qed.
+
+(* ------------------------------------------------------------------------------------ *)
+(* T1 (C01): reads return the latest acknowledged write through every layer                *)
+(* ------------------------------------------------------------------------------------ *)
+
+Theorem C01_read_latest : forall c ops k,
+  lost_log (run c ops) = false ->
+  get (run c ops) k = spec_get (acked (init c) ops) k.
+Proof.
+  intros c ops k Hl. rewrite (get_inv _ _ k (Inv_run c ops) Hl).
+  unfold run in Hl. rewrite (epoch_snd ops (init c) [] Hl). reflexivity.
 Qed.
